@@ -216,7 +216,16 @@ def main(argv=None):
             print(f"note: listed finding no longer reproduces: property={pid} {what}")
 
     replay_paths = []
-    for sig in sorted(new, key=lambda s: (len(jdump(new[s]['case'])), s))[:25]:
+    ranked = sorted(new, key=lambda s: (len(jdump(new[s]['case'])), s))
+    percls = {}
+    for s_ in ranked:
+        percls.setdefault(new[s_]['cls'], []).append(s_)
+    chosen = []
+    while len(chosen) < 25 and any(percls.values()):
+        for cls_ in sorted(percls):
+            if percls[cls_] and len(chosen) < 25:
+                chosen.append(percls[cls_].pop(0))
+    for sig in chosen:
         path = write_replay(pid, new[sig])
         replay_paths.append(path)
         v = new[sig]
